@@ -30,6 +30,9 @@ def run(ctx):
                         "multi-round sequences, NextPackageUntil with scripted callback outcomes (cont/stop/io.EOF/error/nil callback)", env=env)
     s4 = rxcommon.drive(ctx, "reads", ["-reads", 40 if thorough else 6],
                         "through the reader goroutine, also with a package queue of 1..3 entries and a consumer that starts late (the final DONE must get through)", env=env)
+    s5 = rxcommon.drive(ctx, "reqresp", ["-reqresp", 200 if thorough else 25],
+                        "request / response rounds: SendPackage, the answer parsed before the send call returns, read up to the final DONE", env=env)
+    ctx.extra["reqresp_runs"] = s5["runs"]
     ctx.extra.update({"u2_runs": s0["runs"], "round_runs": s1["runs"], "until_runs": s2["runs"], "reader_runs": s4["runs"]})
     ctx.assumptions += [
         "a DONE-family package with status 0 occurs only as the last package of a response (mid-response DONEPROC/DONEINPROC with status 0: open question in DESIGN.md §13); responses that deliver nothing (only informational messages / environment changes) and the empty response are included from the second round on",
